@@ -20,6 +20,8 @@ pub enum Op {
     MapType(usize),
     /// registry.map_into_portable(type_info().type_params)
     MapParams(usize),
+    /// registry.map_into_portable(the fields / variants of type_info())
+    MapMembers(usize),
 }
 
 impl Op {
@@ -29,6 +31,7 @@ impl Op {
             Op::Batch(v) => format!("register_types[{}]", v.iter().map(|i| es[*i].text).collect::<Vec<_>>().join(" | ")),
             Op::MapType(i) => format!("map_into_portable([type_info::<{}>])", es[*i].text),
             Op::MapParams(i) => format!("map_into_portable(type_params of {})", es[*i].text),
+            Op::MapMembers(i) => format!("map_into_portable(fields / variants of {})", es[*i].text),
         }
     }
 }
@@ -88,6 +91,23 @@ pub fn execute(es: &[Entry], ops: &[Op], want_snaps: bool, rep: &mut Report, pro
                 let ps = (es[*i].meta)().type_info().type_params;
                 hand::counting(true);
                 let _ = reg.map_into_portable(ps);
+                hand::counting(false);
+                vec![]
+            }
+            Op::MapMembers(i) => {
+                let t = (es[*i].meta)().type_info();
+                hand::counting(true);
+                match t.type_def {
+                    scale_info::TypeDef::Composite(c) => {
+                        let _ = reg.map_into_portable(c.fields);
+                    }
+                    scale_info::TypeDef::Variant(v) => {
+                        let _ = reg.map_into_portable(v.variants);
+                    }
+                    other => {
+                        let _ = reg.map_into_portable(vec![other]);
+                    }
+                }
                 hand::counting(false);
                 vec![]
             }
@@ -270,12 +290,13 @@ pub fn gen_history(es: &[Entry], by_shallow: &HashMap<&'static str, Vec<usize>>,
     let mut ops = Vec::new();
     for _ in 0..n_ops {
         let i = *rng.pick(&ws);
-        let k = if only_reg { rng.below(7) } else { rng.below(10) };
+        let k = if only_reg { rng.below(7) } else { rng.below(11) };
         ops.push(match k {
             0..=4 => Op::Reg(i),
             5 | 6 => Op::Batch((0..rng.range(0, 4)).map(|_| *rng.pick(&ws)).collect()),
             7 | 8 => Op::MapType(i),
-            _ => Op::MapParams(i),
+            9 => Op::MapParams(i),
+            _ => Op::MapMembers(i),
         });
     }
     ops
@@ -291,6 +312,15 @@ fn roots_of(es: &[Entry], ops: &[Op]) -> Vec<(MetaType, bool)> {
             Op::MapParams(i) => {
                 for p in (es[*i].meta)().type_info().type_params {
                     if let Some(m) = p.ty {
+                        out.push((m, true));
+                    }
+                }
+            }
+            Op::MapMembers(i) => {
+                // everything the definition part mentions gets interned (type parameters are not converted here)
+                let t = (es[*i].meta)().type_info();
+                for (k, m) in bisim::children(&t) {
+                    if k != 0 {
                         out.push((m, true));
                     }
                 }
@@ -435,6 +465,7 @@ pub fn run(a: &Args) -> Report {
                 Op::Batch(_) => "op_register_types",
                 Op::MapType(_) => "op_map_into_portable_type",
                 Op::MapParams(_) => "op_map_into_portable_params",
+                Op::MapMembers(_) => "op_map_into_portable_members",
             }, 1);
         }
         for (_, t) in &last {
